@@ -192,6 +192,74 @@ impl VoiceOracle {
         };
         for (j, nv) in new.sites.iter().enumerate() {
             let old_pos = self.sites.iter().position(|s| s.voice.id == nv.id);
+            // ---- an edit inside a composite site: obligations one level below dsp ----
+            if let (Some(i), Edit::Inner { id, .. }) = (old_pos, &new.edit) {
+                if *id == nv.id {
+                    // every other site must pair exactly with itself, so that the composite can
+                    // only be migrated from its own old version
+                    let others_forced = new.sites.iter().enumerate().all(|(jj, v2)| {
+                        jj == j
+                            || match self.sites.iter().position(|s| s.voice.id == v2.id) {
+                                Some(ii) => oracle::forced_pair(old_shapes, new_shapes, ii, jj),
+                                None => false,
+                            }
+                    });
+                    let oc = oracle::children_of(&old_shapes[i]);
+                    let nc = oracle::children_of(&new_shapes[j]);
+                    let old_site = &self.sites[i];
+                    let mut model = old_site.model.clone();
+                    let mut known = old_site.known && others_forced && oc.len() == 2 && nc.len() == 2;
+                    if known {
+                        match nv.kind {
+                            crate::voices::Kind::Duo => {
+                                for k in 0..2 {
+                                    let same = old_site.voice.subs[k].id == nv.subs[k].id;
+                                    if same {
+                                        // untouched sub-site: must continue, provided its shape
+                                        // tells it apart from its sibling before and after
+                                        if oc[k] != nc[k] || oc[k] == oc[1 - k] || nc[k] == nc[1 - k] {
+                                            known = false;
+                                        }
+                                    } else {
+                                        // replaced sub-site: starts from zero if nothing of the
+                                        // old one can be carried over and it cannot be confused
+                                        // with its sibling
+                                        let disjoint = oracle::leaf_tokens(&oc[k]).is_disjoint(&oracle::leaf_tokens(&nc[k]));
+                                        if !disjoint || nc[k] == nc[1 - k] || nc[k] == oc[1 - k] {
+                                            known = false;
+                                        }
+                                        model.subs[k] = Model::zero(&nv.subs[k]);
+                                    }
+                                }
+                            }
+                            crate::voices::Kind::DlySrc => {
+                                // children: [phasor], delay line. The phasor continues; a delay line
+                                // of another length is a new cell and starts from zero.
+                                // (order-independent: the order of the two children in the
+                                // skeleton is itself something a defect may get wrong)
+                                let ph = "[F1]".to_string();
+                                let od: Vec<&String> = oc.iter().filter(|c| **c != ph).collect();
+                                let nd: Vec<&String> = nc.iter().filter(|c| **c != ph).collect();
+                                if od.len() != 1 || nd.len() != 1 || od[0] == nd[0] {
+                                    known = false;
+                                }
+                                model.ring = vec![0.0; nv.n as usize];
+                                model.w = 0;
+                            }
+                            _ => known = false,
+                        }
+                    }
+                    if known {
+                        res.bump("nested_sites_obligated");
+                    } else {
+                        res.bump("nested_sites_unjudged");
+                        // the state is unknown from here on; keep the model structurally valid
+                        model = Model::zero(nv);
+                    }
+                    next.push(SiteModel { voice: nv.clone(), model, known });
+                    continue;
+                }
+            }
             match old_pos {
                 Some(i)
                     if self.sites[i].voice.kind == nv.kind
@@ -295,6 +363,7 @@ fn edit_name(e: &Edit) -> &'static str {
         Edit::Reorder { .. } => "reorder",
         Edit::Noop => "noop",
         Edit::Fault(_) => "fault",
+        Edit::Inner { .. } => "inner",
     }
 }
 
@@ -887,7 +956,7 @@ fn remove_site(sc: &Scenario, id: u32) -> Scenario {
                 c.retain(|x| *x != id);
             }
             let touches = match &p.edit {
-                Edit::Insert { id: i, .. } | Edit::Delete { id: i, .. } | Edit::Const { id: i, .. } => *i == id,
+                Edit::Insert { id: i, .. } | Edit::Delete { id: i, .. } | Edit::Const { id: i, .. } | Edit::Inner { id: i, .. } => *i == id,
                 Edit::Replace { old_id, new_id, .. }
                 | Edit::Wrap { old_id, new_id, .. }
                 | Edit::Unwrap { old_id, new_id, .. } => *old_id == id || *new_id == id,
